@@ -167,3 +167,232 @@ Section Sem.
     - intros cl a l _ IHa _ IHl st E1 E2 Hc HR. cbn [map]. constructor; [apply IHa | apply IHl]; assumption.
   Qed.
 End Sem.
+
+(* ---------- inline_sem ---------- *)
+
+Theorem inline_sem_frag (B : backend) (ops : list string) e e' E v :
+  fragr true e -> resolve_called e = Ok e' ->
+  eval B ops E e = Some v -> eval B ops E e' = Some v.
+Proof.
+  intros Hf Hr. unfold resolve_called in Hr. inversion Hr; subst; clear Hr.
+  apply (proj1 (sem_engine B ops) true e Hf [] E E).
+  - intros _ y a H. discriminate.
+  - intros x. reflexivity.
+Qed.
+
+(* ---------- capture_freezes: on the call-free fragment with a literal snapshot, rewriting = substituting constants ---------- *)
+
+Inductive fragc : expr -> Prop :=
+ | CName x : fragc (Name x)
+ | CConst c : byname_const c = false -> fragc (Const c)
+ | CAttr v a : fragc v -> fragc (Attr v a)
+ | CUnary o x : fragc x -> fragc (UnaryOp o x)
+ | CBin o l r : fragc l -> fragc r -> fragc (BinOp o l r)
+ | CIf c t f : fragc c -> fragc t -> fragc f -> fragc (IfExp c t f)
+ | CSub v s : fragc v -> fragc s -> fragc (Subscript v s)
+ | CTuple es : fragcs es -> fragc (Tuple es)
+ | CList es : fragcs es -> fragc (List es)
+ | CMeth0 s m : fragc s -> fragc (Call (Attr s m) [] [] [])
+ | CMeth1 s m x b : fragc s -> fragc b -> fragc (Call (Attr s m) [Lambda [x] b] [] [])
+ | CComp x it elt : fragc it -> fragc elt -> fragc (ListComp elt [CompFor (Name x) it [] false])
+with fragcs : list expr -> Prop :=
+ | CNil : fragcs []
+ | CCons a l : fragc a -> fragcs l -> fragcs (a :: l).
+
+Scheme fragc_mut := Induction for fragc Sort Prop
+  with fragcs_mut := Induction for fragcs Sort Prop.
+Combined Scheme fragc_mutind from fragc_mut, fragcs_mut.
+
+Lemma fragc_fragr : (forall e, fragc e -> fragr true e) /\ (forall l, fragcs l -> fragrs true l).
+Proof. apply fragc_mutind; intros; constructor; assumption. Qed.
+
+(* a snapshot of plain literals only: no attribute table, every entry a value the semantics knows *)
+Definition lit_entry (p : string * capval) : Prop :=
+  match snd p with CVal c => const_value c <> None | CFun _ => False end.
+
+Definition lit_env (ce : cenv) : Prop :=
+  Forall lit_entry (ce_nonlocals ce) /\ Forall lit_entry (ce_globals ce) /\ ce_attrs ce = [].
+
+Definition cframe_of (l : list (string * capval)) : amap :=
+  map (fun p => (fst p, match snd p with CVal c => Some (Const c) | CFun _ => None end)) l.
+
+Definition cstack (ce : cenv) (st : list (list string)) : list amap :=
+  map shadow st ++ [cframe_of (ce_nonlocals ce ++ ce_globals ce)].
+
+Lemma assoc_app {A} x (l1 l2 : list (string * A)) :
+  assoc x (l1 ++ l2) = match assoc x l1 with Some v => Some v | None => assoc x l2 end.
+Proof. induction l1 as [|[y v] l1 IH]; simpl; [reflexivity|]. destruct (String.eqb x y); [reflexivity | exact IH]. Qed.
+
+Lemma assoc_cframe x l :
+  assoc x (cframe_of l) = match assoc x l with
+                          | Some (CVal c) => Some (Some (Const c))
+                          | Some (CFun _) => Some None
+                          | None => None end.
+Proof.
+  induction l as [|[y v] l IH]; simpl; [reflexivity|].
+  destruct (String.eqb x y); [destruct v; reflexivity | exact IH].
+Qed.
+
+Lemma assoc_shadow x ps : assoc x (shadow ps) = if existsb (String.eqb x) ps then Some None else None.
+Proof. induction ps as [|p ps IH]; simpl; [reflexivity|]. destruct (String.eqb x p); [reflexivity | exact IH]. Qed.
+
+Lemma lookup_cstack ce st x :
+  lookup_st x (cstack ce st) =
+  if is_arg st x then Some None
+  else match lookup_var ce x with
+       | Some (CVal c) => Some (Some (Const c))
+       | Some (CFun _) => Some None
+       | None => None end.
+Proof.
+  unfold cstack. induction st as [|ps st IH]; cbn [map app lookup_st].
+  - cbn [is_arg existsb]. rewrite assoc_cframe, assoc_app. unfold lookup_var.
+    destruct (assoc x (ce_nonlocals ce)) as [[c|l]|]; try reflexivity.
+    destruct (assoc x (ce_globals ce)) as [[c|l]|]; reflexivity.
+  - rewrite assoc_shadow, is_arg_cons. destruct (existsb (String.eqb x) ps); [reflexivity | exact IH].
+Qed.
+
+Lemma lit_lookup ce x c : lit_env ce -> lookup_var ce x = Some (CVal c) -> const_value c <> None.
+Proof.
+  intros (H1 & H2 & _) H. unfold lookup_var in H.
+  assert (Ha : forall l, Forall lit_entry l -> forall v, assoc x l = Some v -> lit_entry (x, v)).
+  { induction 1 as [|[y w] l Hy _ IH]; simpl; intros v Hv; [discriminate|].
+    destruct (String.eqb x y); [inversion Hv; subst; exact Hy | apply IH; exact Hv]. }
+  destruct (assoc x (ce_nonlocals ce)) eqn:E1.
+  - inversion H; subst. exact (Ha _ H1 _ E1).
+  - exact (Ha _ H2 _ H).
+Qed.
+
+Lemma lit_lookup_fun ce x l : lit_env ce -> lookup_var ce x = Some (CFun l) -> False.
+Proof.
+  intros (H1 & H2 & _) H. unfold lookup_var in H.
+  assert (Ha : forall l0, Forall lit_entry l0 -> forall v, assoc x l0 = Some v -> lit_entry (x, v)).
+  { induction 1 as [|[y w] l0 Hy _ IH]; simpl; intros v Hv; [discriminate|].
+    destruct (String.eqb x y); [inversion Hv; subst; exact Hy | apply IH; exact Hv]. }
+  destruct (assoc x (ce_nonlocals ce)) eqn:E1.
+  - inversion H; subst. exact (Ha _ H1 _ E1).
+  - exact (Ha _ H2 _ H).
+Qed.
+
+Lemma const_value_not_byname c : const_value c <> None -> byname_const c = false.
+Proof. destruct c; simpl; intros H; try reflexivity. contradiction. Qed.
+
+Section Freeze.
+  Variable ce : cenv.
+  Hypothesis Hlit : lit_env ce.
+
+  Definition rw_ok (e : expr) : Prop :=
+    forall st, exists r, rw ce st e = Ok (res (cstack ce st) e, r) /\
+                         (r = res (cstack ce st) e \/ exists c, res (cstack ce st) e = Const c) /\
+                         (forall c, res (cstack ce st) e = Const c -> byname_const c = false).
+
+  Lemma rw_ok_attr v a : rw_ok v -> rw_ok (Attr v a).
+  Proof.
+    intros Hv st. destruct (Hv st) as (r & Hr & Hinv & Hby).
+    exists (Attr (res (cstack ce st) v) a). cbn [rw res]. rewrite Hr. cbn [sbind fst snd].
+    assert (Hat : forall c, lookup_attr ce c a = None).
+    { intros c. unfold lookup_attr. rewrite (proj2 (proj2 Hlit)). reflexivity. }
+    destruct (res (cstack ce st) v) eqn:Hres;
+      try (match goal with
+           | H : _ = Const ?c |- _ =>
+               rewrite (Hby c eq_refl), Hat;
+               split; [reflexivity | split; [left; reflexivity | intros c' Hc'; discriminate]]
+           end);
+      (destruct Hinv as [->|[c0 Hc0]]; [|discriminate]);
+      (split; [reflexivity | split; [left; reflexivity | intros c' Hc'; discriminate]]).
+  Qed.
+
+  Lemma rw_ok_all : (forall e, fragc e -> rw_ok e) /\
+                    (forall l, fragcs l -> forall st, rw_list (rw ce st) l = Ok (map (res (cstack ce st)) l)).
+  Proof.
+    apply fragc_mutind.
+    - (* Name *)
+      intros x st. cbn [rw res]. rewrite lookup_cstack.
+      destruct (is_arg st x).
+      + exists (Name x). split; [reflexivity | split; [left; reflexivity | intros c Hc; discriminate]].
+      + destruct (lookup_var ce x) as [[c|l]|] eqn:Hl.
+        * exists (Name x). split; [reflexivity | split; [right; eauto|]].
+          intros c' Hc'. inversion Hc'; subst. apply const_value_not_byname. eapply lit_lookup; eauto.
+        * exfalso. eapply lit_lookup_fun; eauto.
+        * exists (Name x). split; [reflexivity | split; [left; reflexivity | intros c Hc; discriminate]].
+    - intros c Hc st. exists (Const c). cbn [rw res]. split; [reflexivity | split; [left; reflexivity|]].
+      intros c' Hc'. inversion Hc'; subst. exact Hc.
+    - intros v a _ IH. apply rw_ok_attr; exact IH.
+    - intros o x _ IH st. destruct (IH st) as (r & Hr & _). eexists. cbn [rw res]. rewrite Hr.
+      split; [reflexivity | split; [left; reflexivity | intros c Hc; discriminate]].
+    - intros o l r _ IHl _ IHr st. destruct (IHl st) as (r1 & Hr1 & _). destruct (IHr st) as (r2 & Hr2 & _).
+      eexists. cbn [rw res]. rewrite Hr1, Hr2.
+      split; [reflexivity | split; [left; reflexivity | intros c0 Hc; discriminate]].
+    - intros c t f _ IHc _ IHt _ IHf st.
+      destruct (IHc st) as (r1 & Hr1 & _). destruct (IHt st) as (r2 & Hr2 & _). destruct (IHf st) as (r3 & Hr3 & _).
+      eexists. cbn [rw res]. rewrite Hr1, Hr2, Hr3.
+      split; [reflexivity | split; [left; reflexivity | intros c0 Hc; discriminate]].
+    - intros v s _ IHv _ IHs st. destruct (IHv st) as (r1 & Hr1 & _). destruct (IHs st) as (r2 & Hr2 & _).
+      eexists. cbn [rw res]. rewrite Hr1, Hr2.
+      split; [reflexivity | split; [left; reflexivity | intros c0 Hc; discriminate]].
+    - intros es _ IH st. eexists. cbn [rw res]. rewrite (IH st).
+      split; [reflexivity | split; [left; reflexivity | intros c0 Hc; discriminate]].
+    - intros es _ IH st. eexists. cbn [rw res]. rewrite (IH st).
+      split; [reflexivity | split; [left; reflexivity | intros c0 Hc; discriminate]].
+    - (* method call, no arguments *)
+      intros s m _ IH st. destruct (rw_ok_attr s m IH st) as (r & Hr & Hinv & _).
+      eexists. cbn [rw res rw_list map] in *. rewrite Hr.
+      split; [reflexivity | split; [left; reflexivity | intros c0 Hc; discriminate]].
+    - (* method call with a lambda *)
+      intros s m x b _ IHs _ IHb st. destruct (rw_ok_attr s m IHs st) as (r & Hr & Hinv & _).
+      destruct (IHb ([x] :: st)) as (rb & Hrb & _).
+      eexists. cbn [rw res rw_list map] in *. rewrite Hr, Hrb.
+      split; [reflexivity | split; [left; reflexivity | intros c0 Hc; discriminate]].
+    - (* comprehension *)
+      intros x it elt _ IHit _ IHelt st.
+      destruct (IHit st) as (r1 & Hr1 & _). destruct (IHelt ([x] :: st)) as (r2 & Hr2 & _).
+      eexists. cbn [rw res rw_gens res_gens rw_list comp_targets names_in app map] in *. rewrite Hr1, Hr2.
+      split; [reflexivity | split; [left; reflexivity | intros c0 Hc; discriminate]].
+    - intros st. reflexivity.
+    - intros a l _ IHa _ IHl st. destruct (IHa st) as (r & Hr & _).
+      cbn [rw_list map]. change (rw_list (rw ce st) l) with (rw_list (rw ce st) l).
+      simpl. rewrite Hr. simpl. rewrite (IHl st). reflexivity.
+  Qed.
+End Freeze.
+
+(* the values of the snapshot, as an environment put in front of any later one *)
+Definition snapshot_vals (l : list (string * capval)) : env :=
+  flat_map (fun p => match snd p with
+                     | CVal c => match const_value c with Some v => [(fst p, v)] | None => [] end
+                     | CFun _ => []
+                     end) l.
+
+Definition vals (ce : cenv) : env := snapshot_vals (ce_nonlocals ce ++ ce_globals ce).
+
+Lemma lookup_snapshot x l :
+  Forall lit_entry l ->
+  lookup x (snapshot_vals l) = match assoc x l with Some (CVal c) => const_value c | _ => None end.
+Proof.
+  induction 1 as [|[y w] l Hy _ IH]; simpl; [reflexivity|].
+  unfold lit_entry in Hy; simpl in Hy. destruct w as [c|f]; [|contradiction].
+  destruct (const_value c) as [v|] eqn:Hv; [|contradiction]. simpl.
+  destruct (String.eqb x y); [symmetry; exact Hv | exact IH].
+Qed.
+
+Theorem capture_freezes_frag (B : backend) (ops : list string) ce e e' later v :
+  lit_env ce -> fragc e -> rewrite_captured ce e = Ok e' ->
+  eval B ops (vals ce ++ later) e = Some v -> eval B ops later e' = Some v.
+Proof.
+  intros Hlit Hf Hrw. unfold rewrite_captured in Hrw.
+  destruct (proj1 (rw_ok_all ce Hlit) e Hf []) as (r & Hr & _). rewrite Hr in Hrw. simpl in Hrw.
+  inversion Hrw; subst; clear Hrw.
+  apply (proj1 (sem_engine B ops) true e (proj1 fragc_fragr e Hf) (cstack ce []) (vals ce ++ later) later).
+  - intros _ y a H. rewrite lookup_cstack in H. cbn [is_arg existsb] in H.
+    destruct (lookup_var ce y) as [[c|l]|]; inversion H; eauto.
+  - intros x. rewrite lookup_cstack. cbn [is_arg existsb].
+    assert (Hall : Forall lit_entry (ce_nonlocals ce ++ ce_globals ce)).
+    { destruct Hlit as (H1 & H2 & _). apply Forall_app; split; assumption. }
+    assert (Hv : lookup x (vals ce) = match lookup_var ce x with Some (CVal c) => const_value c | _ => None end).
+    { unfold vals. rewrite (lookup_snapshot x _ Hall), assoc_app. unfold lookup_var.
+      destruct (assoc x (ce_nonlocals ce)) as [[c|l]|]; reflexivity. }
+    rewrite lookup_app, Hv.
+    destruct (lookup_var ce x) as [[c|l]|] eqn:Hl.
+    + intros w Hw. cbn [eval].
+      destruct (const_value c) eqn:Hc; [exact Hw | exfalso; eapply lit_lookup; eauto].
+    + exfalso. eapply lit_lookup_fun; eauto.
+    + reflexivity.
+Qed.
